@@ -73,6 +73,7 @@ func init() { register("c24", c24) }
 type c24Cfg struct {
 	files, threads, cap, ops int
 	pool                     bool
+	churn                    bool // eviction churn: only acquire / release over few files at capacity 1, eviction windows always held open
 }
 
 func c24One(id int, cfg c24Cfg, seed int64) (*c24Run, error) {
@@ -193,6 +194,10 @@ func c24One(id int, cfg c24Cfg, seed int64) (*c24Run, error) {
 				f := run.Files[fi]
 				sf := sfs[fi]
 				x := prnd.Intn(100)
+				if cfg.churn {
+					// acquire (0..44) or release (45..84) only
+					x = prnd.Intn(85)
+				}
 				switch {
 				case x < 45:
 					s.Call(pid, "acquire", f, func() string {
@@ -262,6 +267,12 @@ func c24One(id int, cfg c24Cfg, seed int64) (*c24Run, error) {
 		})
 	}
 	s.Arm()
+	// keep the unlocked eviction window (victim unlinked, ReleaseNow pending) open for a while in half of
+	// the runs, so that the other goroutines acquire / release / touch inside it
+	if seed%2 == 0 || cfg.churn {
+		s.WindowKinds = map[string]bool{"yield:evict-before-releasenow": true, "yield:evict-after-releasenow": true}
+		s.WindowDelay = 16
+	}
 	if err := s.Run(nil, rand.New(rand.NewSource(rnd.Int63()))); err != nil {
 		return nil, err
 	}
@@ -299,11 +310,17 @@ func c24(args []string) error {
 		{files: 3, threads: 3, cap: 2, ops: 6, pool: true},
 		{files: 3, threads: 3, cap: 1, ops: 8, pool: true},
 		{files: 2, threads: 2, cap: 0, ops: 6, pool: false},
+		{files: 2, threads: 2, cap: 1, ops: 8, pool: true, churn: true},
+		{files: 3, threads: 3, cap: 1, ops: 8, pool: true, churn: true},
 	}
 	id := 0
 	distinct := map[string]bool{}
 	for ci, cfg := range cfgs {
-		for k := 0; k < n; k++ {
+		nk := n
+		if cfg.churn {
+			nk = 3 * n
+		}
+		for k := 0; k < nk; k++ {
 			id++
 			run, err := c24One(id, cfg, rnd.Int63())
 			if err != nil {
